@@ -30,6 +30,7 @@ func init() {
 			{ID: "C05-R8", Doc: "row i is buffered for partition shards[i], once, and every buffered row is written", Run: c05r8},
 			{ID: "C11-R1", Doc: "hash and comparison address row i of a view at storage index i+off, so a key's shard does not depend on its position in a vector (shared)", Run: c11r1},
 			{ID: "C18-R8", Doc: "operators that key by a prefix reject inputs whose key prefix or key column types differ (Cogroup), so equal keys are hashed over the same columns by every producer (shared)", Run: c18r8},
+			{ID: "C11-R10", Doc: "comparison and hashing cover every key column, so keys equal for the hash are equal for the order (shared)", Run: c11r10},
 			{ID: "C08-R2", Doc: "task sets the memo keeps apart (different partitioners or widths) get distinct names minted by the namer: workers and stores key partitions by task name, so a shared name files rows under the other set's shards (shared)", Run: c08r2},
 			{ID: "C05-R9", Doc: "driver and worker agree on one location per dependency task", Run: c05r9},
 		},
@@ -460,8 +461,23 @@ func c05r3(c *RC) {
 				if a, isA := m.(*ast.AssignStmt); isA && len(a.Lhs) == 1 {
 					if ix, isIx := a.Lhs[0].(*ast.IndexExpr); isIx && expr(ix.Index) == iv && expr(ix.X) == expr(rng.X) {
 						// the value stored is element 0 of the user function's result
-						if strings.Contains(expr(a.Rhs[0]), "[0]") && strings.Contains(expr(a.Rhs[0]), ".Int()") {
-							storesI = true
+						// — as given: a conversion of result[0].Int() and nothing else (a
+						// value folded into the shard range, say with % nshard, files an
+						// out-of-range assignment under another shard instead of failing)
+						rhs := ast.Unparen(a.Rhs[0])
+						if cv, isCall := rhs.(*ast.CallExpr); isCall && len(cv.Args) == 1 {
+							if tv, okT := fn.Pkg.Info.Types[cv.Fun]; okT && tv.IsType() {
+								rhs = ast.Unparen(cv.Args[0])
+							}
+						}
+						if k, isCall := rhs.(*ast.CallExpr); isCall && len(k.Args) == 0 {
+							if se, isSel := k.Fun.(*ast.SelectorExpr); isSel && se.Sel.Name == "Int" {
+								if ix0, isIx0 := ast.Unparen(se.X).(*ast.IndexExpr); isIx0 {
+									if z, isC := constInt(fn.Pkg, ix0.Index); isC && z == 0 {
+										storesI = true
+									}
+								}
+							}
 						}
 					}
 				}
